@@ -183,6 +183,21 @@ func (s *scen) judge(o obs, seen map[string]bool) []finding {
 			add("close|"+l, "close-blocked-on-list-mutex-held-by-forward-send",
 				"Listener.Close never returns: it waits for the forwardList mutex in forwardList.remove while forwardList.forward holds it, blocked in the send on the listener's full 1-buffered channel (no Accept pending)",
 				map[string]any{"listener": l, "close_goroutine": g.Raw, "dispatcher_goroutines": draw})
+		} else if g.State == "chan receive" && g.has("ssh.(*mux).SendRequest") && s.muxLoopBlocked() {
+			// Close is waiting for the reply to its cancel request, which the connection's read loop cannot
+			// reach: the loop is parked on the full incomingChannels queue behind un-accepted forwards.
+			kind := s.tg[s.laddr[l]].net
+			keys, ok := s.registeredKeys()
+			own := s.tg[s.laddr[l]].key()
+			det := map[string]any{"listener": l, "kind": kind, "close_goroutine": g.Raw, "dispatchers": dstates, "registered": keys}
+			switch {
+			case ok && !keys[own]:
+				add("close|"+l, "close-hangs:backlog:other-listener-unserviced",
+					"Listener.Close never returns: it has removed its entry and waits for the cancel reply, but the connection's read loop is blocked behind forwarded opens for another, un-accepted listener (every queue between mux.loop and that listener is full)", det)
+			default:
+				add("close|"+l, "close-hangs:"+kind+":backlog",
+					"Listener.Close never returns: it waits for the cancel reply while its own entry is still registered and the connection's read loop is blocked behind the un-accepted forwards (the entry must be removed before waiting)", det)
+			}
 		} else {
 			add("close|"+l, "close-hangs:"+g.State+":"+inner,
 				"Listener.Close never returns: parked in "+inner+" ["+g.State+"] in a quiescent process",
